@@ -1,6 +1,6 @@
 (* Properties.v - the property theorems and nothing else.  Every theorem is
    closed by [exact <lemma>] and followed by Print Assumptions. *)
-From NTRIP Require Import Base Bits BitsProofs.
+From NTRIP Require Import Base Bits BitsProofs Crc CrcProofs Time Classify Frame FrameSpec FrameProofs.
 
 (* ===================== C14 ===================== *)
 (* Unsigned extraction returns the integer whose binary digits are the addressed
@@ -33,3 +33,56 @@ Example C14_example :
   get_s [1; 0; 0; 0; 0; 0; 0; 0; 0]%N 7 64 = Ok (- 2 ^ 63)%Z /\
   get_u [211; 0; 19; 62; 208]%N 24 12 = Ok 1005%N.
 Proof. split; vm_compute; reflexivity. Qed.
+
+(* ===================== C01 ===================== *)
+(* Every message the stream handler delivers with a non-negative type carries raw bytes that
+   are exactly one valid RTCM3 frame (preamble, zero reserved bits, non-zero length equal to
+   the payload size, trailing CRC-24Q of the bit-serial specification), and the reported type
+   is the frame's first 12 payload bits. *)
+Theorem C01_stream : forall h input ms h', bytes_ok input ->
+  handle_stream h input = Ok (ms, h') ->
+  Forall (fun m => (0 <= mtype m)%Z ->
+            valid_frame (raw m) /\ mtype m = Z.of_N (frame_type (raw m))) ms.
+Proof. exact stream_typed_valid. Qed.
+Print Assumptions C01_stream.
+
+(* Single-frame decoding never returns a typed message without an error unless the bytes at
+   the head of its argument are such a frame, and then the message holds exactly that frame. *)
+Theorem C01_single : forall h b m h', bytes_ok b ->
+  get_message h b = Ok (Some m, h') -> (0 <= mtype m)%Z -> merr m = None ->
+  valid_frame (raw m) /\ mtype m = Z.of_N (frame_type (raw m)) /\ exists x, b = raw m ++ x.
+Proof. exact get_message_valid. Qed.
+Print Assumptions C01_single.
+
+(* The model's Hash (table-driven, uint32) is the CRC-24Q of the specification. *)
+Theorem C01_crc : forall data, bytes_ok data -> crc24q_hash data = crc24q_spec data.
+Proof. exact crc24q_hash_spec. Qed.
+Print Assumptions C01_crc.
+
+(* Non-vacuity: a real 1005 frame is valid and is delivered typed; the stricter reading
+   "the argument is exactly one frame" is refuted by design (trailing bytes are ignored). *)
+Example C01_example :
+  let f := [211; 0; 19; 62; 208; 2; 12; 10; 88; 246; 126; 253; 63; 255; 237; 41; 121; 12; 239; 94; 128; 227; 229; 56; 76]%N in
+  valid_frameb f = true /\ frame_type f = 1005%N /\
+  (exists m h', get_message (new_handler 0) (f ++ [0]%N) = Ok (Some m, h') /\ mtype m = 1005%Z /\ raw m = f /\ merr m = None).
+Proof.
+  cbv zeta. split; [vm_compute; reflexivity|]. split; [vm_compute; reflexivity|].
+  eexists. eexists. split; [vm_compute; reflexivity|]. repeat split.
+Qed.
+
+(* ===================== C02 ===================== *)
+(* For every finite byte stream the stream handler returns (no panic, fuel suffices) and the
+   raw bytes of the delivered messages, concatenated in order, are the input; none is empty. *)
+Theorem C02_lossless : forall h input,
+  exists ms h', handle_stream h input = Ok (ms, h') /\
+    concat (map raw ms) = input /\ Forall (fun m => raw m <> []) ms.
+Proof.
+  intros h input. destruct (handle_stream_lossless h input) as (ms & h' & H1 & H2 & H3 & _).
+  exists ms, h'. repeat split; assumption.
+Qed.
+Print Assumptions C02_lossless.
+
+Example C02_example :
+  exists ms h', handle_stream (new_handler 0) [65; 211; 66; 67; 68; 69; 211]%N = Ok (ms, h') /\
+                map raw ms = [[65]; [211; 66; 67; 68; 69]; [211]]%N.
+Proof. eexists. eexists. split; vm_compute; reflexivity. Qed.
